@@ -912,7 +912,7 @@ class _Prop:
         "schedules (sorted, reversed, hashed permutations of every directory) x request by name / Path of the "
         "directory / string path. The first successful tree is compared with CPython's PathFinder/pkgutil view and "
         "all loads must give the same normalised tree. Non-trivial = some listing had a choice of order; distinct "
-        "= distinct (tree hash, outcome, number of loads). Also drawn per world: the order of the search paths (independent of the directory names), user-style directory names for them (prefix-related names, a space), non-existent / duplicate / plain-file search-path entries, editable-install .pth shapes, <top>-stubs packages with find_stubs_package, a relative-string request form, reuse of a loader that already served another request, dotted and hidden directories, several spellings of pkgutil/pkg_resources namespace declarations; 1.5 % of worlds cross-check the oracle against a real import in a pristine interpreter. Round s: sources with a UTF-8 byte order mark, relative .pth lines, directories named *.pth, requests by name from a directory holding a plain file of that name. Round r: plain files named like the package, top-level directories holding only stubs, nested search paths (root and root/src), namespace declarations below licence headers of up to 70,000 characters. Round k: a second copy of the target package outside the search path, requested by its path from a loader that already served the installed copy (reference: CPython with that directory put in front)."
+        "= distinct (tree hash, outcome, number of loads). Also drawn per world: the order of the search paths (independent of the directory names), user-style directory names for them (prefix-related names, a space), non-existent / duplicate / plain-file search-path entries, editable-install .pth shapes, <top>-stubs packages with find_stubs_package, a relative-string request form, reuse of a loader that already served another request, dotted and hidden directories, several spellings of pkgutil/pkg_resources namespace declarations; 1.5 % of worlds cross-check the oracle against a real import in a pristine interpreter. Round t: distribution-style .pth names, dotted stub backups, directories named pkg.py, plain lines around editable import lines, packages that are symbolic links, modules named like stubs packages. Round s: sources with a UTF-8 byte order mark, relative .pth lines, directories named *.pth, requests by name from a directory holding a plain file of that name. Round r: plain files named like the package, top-level directories holding only stubs, nested search paths (root and root/src), namespace declarations below licence headers of up to 70,000 characters. Round k: a second copy of the target package outside the search path, requested by its path from a loader that already served the installed copy (reference: CPython with that directory put in front)."
     )
     COMPONENTS = {
         "real": ["_griffe.finder", "_griffe.loader", "_griffe.agents.visitor", "_griffe.merger", "_griffe.models", "CPython importlib.machinery.PathFinder / pkgutil (oracle, unperturbed)", "real files on tmpfs"],
